@@ -175,6 +175,45 @@ fn main() {
         });
         sink.merge(sx);
     }
+    // DTLS (and TLS) alert records over epoch x number of alerts x position of the swept alert: all 65536 (level, description)
+    // pairs in the first / second alert of records with 1..3 alerts, epochs 0 / 1 / 0xffff
+    {
+        let sa = par_run(run.threads, 256, |lvl, sink| {
+            for desc in 0..=255u8 {
+                for nalerts in 1..=3usize {
+                    for pos in 0..nalerts.min(2) {
+                        let mut payload = Vec::new();
+                        for k in 0..nalerts {
+                            if k == pos {
+                                payload.extend([lvl as u8, desc]);
+                            } else {
+                                payload.extend([1u8, 0]);
+                            }
+                        }
+                        for epoch in [0u16, 1, 0xffff] {
+                            let w = vcommon::catalogue::dtls_record(0x15, 0xfefd, epoch, 5, |w| {
+                                w.bytes(&payload);
+                            });
+                            if matches!((DTLS_RECORD.reference)(&w.buf), Ref::Must(..)) {
+                                let (g, _) = check_case(run.prop, &DTLS_RECORD, &w.buf, sink);
+                                sink.count("DTLS alert grid", if g.is_ok() { "accepted" } else { "REJECTED" });
+                            }
+                        }
+                        if nalerts > 1 {
+                            let w = vcommon::catalogue::record(0x15, 0x0303, |w| {
+                                w.bytes(&payload);
+                            });
+                            if matches!((PLAINTEXT.reference)(&w.buf), Ref::Must(..)) {
+                                let (g, _) = check_case(run.prop, &PLAINTEXT, &w.buf, sink);
+                                sink.count("TLS alert grid", if g.is_ok() { "accepted" } else { "REJECTED" });
+                            }
+                        }
+                    }
+                }
+            }
+        });
+        sink.merge(sa);
+    }
     // encrypted_server_name: suite x group (registered or not, in every combination) x field sizes; key_share: group x size
     {
         let mut k = vcommon::catalogue::esni_grid();
